@@ -107,7 +107,7 @@ theorem rd_piece (s rest : Bytes) (off n : Nat) (h : off + n ≤ s.length) :
 
 /-! ### `resize` -/
 
-theorem cap_inline {r : Rep} (h : r.size = 0) : r.cap = 16 := by simp [Rep.cap, h, SPACE]
+theorem cap_inline {r : Rep} (h : r.size = 0) : r.cap = SPACE := by simp [Rep.cap, h]
 theorem cap_heap {r : Rep} (h : r.size ≠ 0) : r.cap = r.size := by simp [Rep.cap, h]
 
 /-- `resize(n)` (keep, newlen): the result block is some `B` that starts with the old text, cut at `n` by the
@@ -125,7 +125,7 @@ theorem resize_keep {r : Rep} {s : Bytes} (hm : Models r s) (n : Nat) :
     omega
   unfold Rep.resize
   by_cases h0 : r.size = 0
-  · have hc16 : r.buf.length = 16 := by rw [hcap, cap_inline h0]
+  · have hc16 : r.buf.length = SPACE := by rw [hcap, cap_inline h0]
     simp only [h0, if_true]
     by_cases hn : n < SPACE
     · simp only [hn, if_true]
@@ -133,40 +133,40 @@ theorem resize_keep {r : Rep} {s : Bytes} (hm : Models r s) (n : Nat) :
       rw [wr_term hnb]
       refine ⟨_, r.buf, rfl, rfl, ?_, hpre, hnb, rfl⟩
       simp only [Rep.cap, h0, if_true]
-      have := fin r.buf 0 hnb (by simp [hc16, SPACE])
+      have := fin r.buf 0 hnb (by simp [hc16])
       simpa using this
     · simp only [hn, if_false]
-      have hn16 : 16 ≤ n := by simpa [SPACE] using hn
+      have hn16 : SPACE ≤ n := Nat.le_of_not_lt hn
       have hrd : rd r.buf 0 (r.len + 1) = some (s ++ [0]) := by
         rw [hbuf, hlen]
         have := rd_mid' [] (s ++ [0]) tail 0 (s.length + 1) rfl (by simp)
         simpa using this
-      have hwr : wr (fresh (max (n + 1) 24)) 0 (s ++ [0]) = some (s ++ [0] ++ (fresh (max (n + 1) 24)).drop (s.length + 1)) := by
+      have hwr : wr (fresh (max (n + 1) Gen.Str.heapMin)) 0 (s ++ [0]) = some (s ++ [0] ++ (fresh (max (n + 1) Gen.Str.heapMin)).drop (s.length + 1)) := by
         rw [wr_some (by simp [fresh_length]; omega)]
         simp
       simp only [hrd, Option.bind_some, hwr]
-      have hB : n < (s ++ [0] ++ (fresh (max (n + 1) 24)).drop (s.length + 1)).length := by
+      have hB : n < (s ++ [0] ++ (fresh (max (n + 1) Gen.Str.heapMin)).drop (s.length + 1)).length := by
         simp [fresh_length]; omega
       rw [wr_term hB]
       refine ⟨_, _, rfl, rfl, ?_, ?_, hB, rfl⟩
-      · have hsz : max (n + 1) 24 ≠ 0 := by omega
+      · have hsz : max (n + 1) Gen.Str.heapMin ≠ 0 := by omega
         simp only [Rep.cap, hsz, if_false]
-        have := fin (s ++ [0] ++ (fresh (max (n + 1) 24)).drop (s.length + 1)) (max (n + 1) 24) hB
+        have := fin (s ++ [0] ++ (fresh (max (n + 1) Gen.Str.heapMin)).drop (s.length + 1)) (max (n + 1) Gen.Str.heapMin) hB
           (by simp [fresh_length, hsz]; omega)
         simpa [hsz] using this
-      · exact ⟨[0] ++ (fresh (max (n + 1) 24)).drop (s.length + 1), by simp⟩
+      · exact ⟨[0] ++ (fresh (max (n + 1) Gen.Str.heapMin)).drop (s.length + 1), by simp⟩
   · have hcs : r.buf.length = r.size := by rw [hcap, cap_heap h0]
     simp only [h0, if_false]
     by_cases hg : n + 1 > r.size
     · -- grow
       simp only [hg, if_true]
-      have hne : ¬ (max (if r.size < 2 ^ 30 then 2 * r.size else 2147483647) (n + 1) = r.size) := by
-        have : n + 1 ≤ max (if r.size < 2 ^ 30 then 2 * r.size else 2147483647) (n + 1) := Nat.le_max_right _ _
+      have hne : ¬ (max (if r.size < Gen.Str.doubleBelow then 2 * r.size else Gen.Str.sizeMax) (n + 1) = r.size) := by
+        have : n + 1 ≤ max (if r.size < Gen.Str.doubleBelow then 2 * r.size else Gen.Str.sizeMax) (n + 1) := Nat.le_max_right _ _
         omega
       simp only [hne, if_false]
-      generalize hsz : max (if r.size < 2 ^ 30 then 2 * r.size else 2147483647) (n + 1) = size2
+      generalize hsz : max (if r.size < Gen.Str.doubleBelow then 2 * r.size else Gen.Str.sizeMax) (n + 1) = size2
       have hs2 : n + 1 ≤ size2 := by rw [← hsz]; exact Nat.le_max_right _ _
-      by_cases hk : r.size < 1024
+      by_cases hk : r.size < Gen.Str.reallocFrom
       · simp only [hk, if_true]
         have hmin : min n (r.len + 1) = s.length + 1 := by omega
         have hrd : rd r.buf 0 (min n (r.len + 1)) = some (s ++ [0]) := by
@@ -218,7 +218,7 @@ theorem resize_nokeep {r : Rep} (hcap : r.buf.length = r.cap) (n : Nat) :
     omega
   unfold Rep.resize
   by_cases h0 : r.size = 0
-  · have hc16 : r.buf.length = 16 := by rw [hcap, cap_inline h0]
+  · have hc16 : r.buf.length = SPACE := by rw [hcap, cap_inline h0]
     simp only [h0, if_true]
     by_cases hn : n < SPACE
     · simp only [hn, if_true]
@@ -226,30 +226,30 @@ theorem resize_nokeep {r : Rep} (hcap : r.buf.length = r.cap) (n : Nat) :
       rw [wr_term hnb]
       refine ⟨_, r.buf, rfl, rfl, ?_, hnb, rfl⟩
       simp only [Rep.cap, h0, if_true]
-      have := fin r.buf 0 hnb (by simp [hc16, SPACE])
+      have := fin r.buf 0 hnb (by simp [hc16])
       simpa using this
     · simp only [hn, if_false]
-      have hn16 : 16 ≤ n := by simpa [SPACE] using hn
+      have hn16 : SPACE ≤ n := Nat.le_of_not_lt hn
       simp only [Bool.false_eq_true, if_false, Option.bind_some, if_true]
-      have hB : n < (fresh (max (n + 1) 24)).length := by simp [fresh_length]; omega
+      have hB : n < (fresh (max (n + 1) Gen.Str.heapMin)).length := by simp [fresh_length]; omega
       rw [wr_term hB]
       refine ⟨_, _, rfl, rfl, ?_, hB, rfl⟩
-      have hsz : max (n + 1) 24 ≠ 0 := by omega
+      have hsz : max (n + 1) Gen.Str.heapMin ≠ 0 := by omega
       simp only [Rep.cap, hsz, if_false]
-      have := fin (fresh (max (n + 1) 24)) (max (n + 1) 24) hB (by simp [fresh_length, hsz])
+      have := fin (fresh (max (n + 1) Gen.Str.heapMin)) (max (n + 1) Gen.Str.heapMin) hB (by simp [fresh_length, hsz])
       simpa [hsz] using this
   · have hcs : r.buf.length = r.size := by rw [hcap, cap_heap h0]
     simp only [h0, if_false]
     by_cases hg : n + 1 > r.size
     · simp only [hg, if_true]
-      have hne : ¬ (max (if r.size < 2 ^ 30 then 2 * r.size else 2147483647) (n + 1) = r.size) := by
-        have : n + 1 ≤ max (if r.size < 2 ^ 30 then 2 * r.size else 2147483647) (n + 1) := Nat.le_max_right _ _
+      have hne : ¬ (max (if r.size < Gen.Str.doubleBelow then 2 * r.size else Gen.Str.sizeMax) (n + 1) = r.size) := by
+        have : n + 1 ≤ max (if r.size < Gen.Str.doubleBelow then 2 * r.size else Gen.Str.sizeMax) (n + 1) := Nat.le_max_right _ _
         omega
       simp only [hne, if_false]
-      generalize hsz : max (if r.size < 2 ^ 30 then 2 * r.size else 2147483647) (n + 1) = size2
+      generalize hsz : max (if r.size < Gen.Str.doubleBelow then 2 * r.size else Gen.Str.sizeMax) (n + 1) = size2
       have hs2 : n + 1 ≤ size2 := by rw [← hsz]; exact Nat.le_max_right _ _
       have hsz0 : size2 ≠ 0 := by omega
-      by_cases hk : r.size < 1024
+      by_cases hk : r.size < Gen.Str.reallocFrom
       · simp only [hk, if_true, Bool.false_eq_true, if_false, Option.map_some, Option.bind_some]
         have hB : n < (fresh size2).length := by simp [fresh_length]; omega
         rw [wr_term hB]
@@ -280,36 +280,36 @@ theorem resize_reserve {r : Rep} {s : Bytes} (hm : Models r s) (n : Nat) :
   have hlt : s.length < r.buf.length := by rw [hbuf]; simp
   unfold Rep.resize
   by_cases h0 : r.size = 0
-  · have hc16 : r.buf.length = 16 := by rw [hcap, cap_inline h0]
+  · have hc16 : r.buf.length = SPACE := by rw [hcap, cap_inline h0]
     simp only [h0, if_true]
     by_cases hn : n < SPACE
     · simp only [hn, if_true, Bool.false_eq_true, if_false]
       exact ⟨r, rfl, hcap, hlen, hnf, tail, hbuf⟩
     · simp only [hn, if_false]
-      have hn16 : 16 ≤ n := by simpa [SPACE] using hn
+      have hn16 : SPACE ≤ n := Nat.le_of_not_lt hn
       have hrd : rd r.buf 0 (r.len + 1) = some (s ++ [0]) := by
         rw [hbuf, hlen]
         have := rd_mid' [] (s ++ [0]) tail 0 (s.length + 1) rfl (by simp)
         simpa using this
-      have hwr : wr (fresh (max (n + 1) 24)) 0 (s ++ [0]) = some (s ++ [0] ++ (fresh (max (n + 1) 24)).drop (s.length + 1)) := by
+      have hwr : wr (fresh (max (n + 1) Gen.Str.heapMin)) 0 (s ++ [0]) = some (s ++ [0] ++ (fresh (max (n + 1) Gen.Str.heapMin)).drop (s.length + 1)) := by
         rw [wr_some (by simp [fresh_length]; omega)]
         simp
       simp only [hrd, Option.bind_some, hwr, Bool.false_eq_true, if_false, if_true]
-      refine ⟨_, rfl, ?_, hlen, hnf, (fresh (max (n + 1) 24)).drop (s.length + 1), by simp⟩
-      have hsz : max (n + 1) 24 ≠ 0 := by omega
+      refine ⟨_, rfl, ?_, hlen, hnf, (fresh (max (n + 1) Gen.Str.heapMin)).drop (s.length + 1), by simp⟩
+      have hsz : max (n + 1) Gen.Str.heapMin ≠ 0 := by omega
       simp [Rep.cap, hsz, fresh_length]; omega
   · have hcs : r.buf.length = r.size := by rw [hcap, cap_heap h0]
     simp only [h0, if_false]
     by_cases hg : n + 1 > r.size
     · simp only [hg, if_true]
-      have hne : ¬ (max (if r.size < 2 ^ 30 then 2 * r.size else 2147483647) (n + 1) = r.size) := by
-        have : n + 1 ≤ max (if r.size < 2 ^ 30 then 2 * r.size else 2147483647) (n + 1) := Nat.le_max_right _ _
+      have hne : ¬ (max (if r.size < Gen.Str.doubleBelow then 2 * r.size else Gen.Str.sizeMax) (n + 1) = r.size) := by
+        have : n + 1 ≤ max (if r.size < Gen.Str.doubleBelow then 2 * r.size else Gen.Str.sizeMax) (n + 1) := Nat.le_max_right _ _
         omega
       simp only [hne, if_false]
-      generalize hsz : max (if r.size < 2 ^ 30 then 2 * r.size else 2147483647) (n + 1) = size2
+      generalize hsz : max (if r.size < Gen.Str.doubleBelow then 2 * r.size else Gen.Str.sizeMax) (n + 1) = size2
       have hs2 : n + 1 ≤ size2 := by rw [← hsz]; exact Nat.le_max_right _ _
       have hsz0 : size2 ≠ 0 := by omega
-      by_cases hk : r.size < 1024
+      by_cases hk : r.size < Gen.Str.reallocFrom
       · simp only [hk, if_true]
         have hmin : min n (r.len + 1) = s.length + 1 := by omega
         have hrd : rd r.buf 0 (min n (r.len + 1)) = some (s ++ [0]) := by
